@@ -236,6 +236,40 @@ func (e *Exec) compareDataset(path string, ds *model.Dataset, od *ObjDump) {
 			}
 		}
 		e.probe("values-ok:" + lc)
+		// the library's other read for these types: blocks through ReadSlice
+		for _, pr := range od.Parts {
+			if strings.HasPrefix(pr.Err, PanicMark) {
+				e.violate("panic", "read-slice:"+ErrClass(pr.Err), pr.Err)
+				return
+			}
+			if pr.Err != "" {
+				e.probe("read-slice-error:" + ds.DT.Name)
+				continue
+			}
+			exp := blockOf(want, ds.Dims, pr.Start, pr.Count)
+			if len(exp) != len(pr.Vals) {
+				e.violate("dataset-values", "slice-length:"+lc, fmt.Sprintf("%s: ReadSlice(%v,%v) returned %d values, want %d", path, pr.Start, pr.Count, len(pr.Vals), len(exp)))
+				return
+			}
+			for i := range exp {
+				if math.Float64bits(exp[i]) != math.Float64bits(pr.Vals[i]) {
+					// Two defects of the pinned tree get their own, narrow classes so that
+					// they do not hide anything else: (1) a chunked selection is returned in
+					// chunk order instead of row-major order - same values, other order;
+					// (2) partial selections of contiguous datasets of rank >= 3.
+					cls := "slice:" + lc
+					switch {
+					case len(ds.Chunk) > 0 && sameMultiset(exp, pr.Vals):
+						cls = "slice-order:chunked"
+					case len(ds.Chunk) == 0 && len(ds.Dims) >= 3:
+						cls = "slice:contiguous-rank3plus"
+					}
+					e.violate("dataset-values", cls, fmt.Sprintf("%s (%s %v chunk %v): ReadSlice(%v,%v) element %d = %v want %v", path, ds.DT.Name, ds.Dims, ds.Chunk, pr.Start, pr.Count, i, pr.Vals[i], exp[i]))
+					return
+				}
+			}
+			e.probe("slice-ok:" + lc)
+		}
 	case "string":
 		if od.StrsErr != "" {
 			e.probe("read-error:String")
@@ -494,4 +528,50 @@ func readErrLayout(ds *model.Dataset) string {
 		return "filtered"
 	}
 	return layoutClass(ds)
+}
+
+// blockOf extracts the row-major block [start, start+count) from a row-major array of shape dims.
+func blockOf(all []float64, dims, start, count []uint64) []float64 {
+	n := uint64(1)
+	for _, c := range count {
+		n *= c
+	}
+	out := make([]float64, 0, n)
+	idx := make([]uint64, len(dims))
+	for k := uint64(0); k < n; k++ {
+		off := uint64(0)
+		for i := range dims {
+			off = off*dims[i] + start[i] + idx[i]
+		}
+		if off < uint64(len(all)) {
+			out = append(out, all[off])
+		}
+		for i := len(dims) - 1; i >= 0; i-- {
+			idx[i]++
+			if idx[i] < count[i] {
+				break
+			}
+			idx[i] = 0
+		}
+	}
+	return out
+}
+
+func sameMultiset(a, b []float64) bool {
+	if len(a) != len(b) {
+		return false
+	}
+	x := make([]uint64, len(a))
+	y := make([]uint64, len(b))
+	for i := range a {
+		x[i], y[i] = math.Float64bits(a[i]), math.Float64bits(b[i])
+	}
+	sort.Slice(x, func(i, j int) bool { return x[i] < x[j] })
+	sort.Slice(y, func(i, j int) bool { return y[i] < y[j] })
+	for i := range x {
+		if x[i] != y[i] {
+			return false
+		}
+	}
+	return true
 }
